@@ -313,6 +313,57 @@ Lemma fok_m_renew1 s old new crev cfsize cmroot nrev nfsize nmroot nws mold :
   fok (m_renew1 s old new crev cfsize cmroot nrev nfsize nmroot nws mold).
 Proof. unfold m_renew1. fok_tac2. Qed.
 
+(* WP-G: the guard in front of Commit / RenewContract *)
+Lemma fok_m_revisable1 s id : fok (m_revisable1 s id).
+Proof. unfold m_revisable1. fok_tac2. Qed.
+
+Lemma fok_g_commit1 s x nrev nfsize nmroot : fok (g_commit1 s x nrev nfsize nmroot).
+Proof. unfold g_commit1. apply fok_bind; [apply fok_m_revisable1|intros _; apply fok_m_commit1]. Qed.
+
+Lemma fok_g_renew1 s old new crev cfsize cmroot nrev nfsize nmroot nws mold :
+  fok (g_renew1 s old new crev cfsize cmroot nrev nfsize nmroot nws mold).
+Proof. unfold g_renew1. apply fok_bind; [apply fok_m_revisable1|intros _; apply fok_m_renew1]. Qed.
+
+(* without an injected failure the monadic guard is the plain one *)
+Lemma m_revisable1_None s id :
+  m_revisable1 s id None =
+  match revisable1 (height s) (t1 (dbs s)) id with Ok _ => Ok (tt, None) | Err e => Err e | Panic => Panic end.
+Proof.
+  cbv [m_revisable1 revisable1 store_get transaction mbind stmt ret lift].
+  destruct (alookup id (t1 (dbs s))) as [c|]; [|reflexivity]. now destruct (good1 (height s) c).
+Qed.
+
+(* an accepted guarded call: the guard held at the current tip, and the call behind it was accepted *)
+Lemma guarded_ok A s id (m : M A) a k :
+  mbind (m_revisable1 s id) (fun _ => m) None = Ok (a, k) ->
+  (exists c, alookup id (t1 (dbs s)) = Some c /\ good1 (height s) c = true) /\ m None = Ok (a, k).
+Proof.
+  unfold mbind. rewrite m_revisable1_None. unfold revisable1.
+  destruct (alookup id (t1 (dbs s))) as [c|]; [|discriminate].
+  destruct (good1 (height s) c) eqn:G; [|discriminate]. intros E. split; [now exists c|exact E].
+Qed.
+
+(* a guard that fails is the call's answer *)
+Lemma guarded_refused A s id (m : M A) e :
+  revisable1 (height s) (t1 (dbs s)) id = Err e -> mbind (m_revisable1 s id) (fun _ => m) None = Err e.
+Proof. intros H. unfold mbind. now rewrite m_revisable1_None, H. Qed.
+
+Lemma revisable1_cases h t id :
+  (exists c, alookup id t = Some c /\ good1 h c = true /\ revisable1 h t id = Ok tt) \/
+  (exists e, revisable1 h t id = Err e).
+Proof.
+  unfold revisable1. destruct (alookup id t) as [c|]; [|right; eauto].
+  destruct (good1 h c) eqn:G; [left; exists c; auto|right; eauto].
+Qed.
+
+(* ... and a guard that holds is transparent *)
+Lemma guarded_pass A s id (m : M A) c :
+  alookup id (t1 (dbs s)) = Some c -> good1 (height s) c = true ->
+  mbind (m_revisable1 s id) (fun _ => m) None = m None.
+Proof.
+  intros L G. unfold mbind. rewrite m_revisable1_None. unfold revisable1. now rewrite L, G.
+Qed.
+
 Lemma fok_m_revise2 s id c newroots mnew rsig hsig : fok (m_revise2 s id c newroots mnew rsig hsig).
 Proof.
   unfold m_revise2. fok_tac2.
@@ -356,8 +407,8 @@ Lemma fault_any_statement s o k :
   end.
 Proof.
   destruct o; try exact I; cbn [step].
-  - destruct (alookup u (upds s)); [|now left]. apply outcome_fault, fok_m_commit1.
-  - apply outcome_fault, fok_m_renew1.
+  - destruct (alookup u (upds s)); [|now left]. apply outcome_fault, fok_g_commit1.
+  - apply outcome_fault, fok_g_renew1.
   - apply outcome_fault, fok_m_revise2.
   - apply outcome_fault, fok_m_renew2.
 Qed.
